@@ -49,7 +49,8 @@ class Cfg:
     """One configuration of a run: universe + how the tracks object is constructed."""
 
     def __init__(self, N=3, T=3, dims=(), scale=(), use_scale=True, reg_cust=False,
-                 per_axis_pos=False, name="struct", enable=(), rebuild=None, embed=None, max_stroke=0, node_shift=0):
+                 per_axis_pos=False, name="struct", enable=(), rebuild=None, embed=None, max_stroke=0, node_shift=0,
+                 seg_dtype="uint16"):
         self.N, self.T = N, T
         self.dims = tuple(dims)
         self.scale = tuple(scale) if scale else tuple(1 for _ in dims)
@@ -68,6 +69,7 @@ class Cfg:
         # embed may also be a dict {"shape": real array shape, "tmap": real frame of abstract frame 0.., "amap":
         # [per spatial axis: real index of abstract index 0.. (or None = identity)]}: embedding along every axis
         self.max_stroke = max_stroke    # 0: all strokes are fired; k: only strokes of <= k pixels
+        self.seg_dtype = seg_dtype      # dtype of the label array
         self.P = int(np.prod(self.dims)) if self.dims else 0
 
     @property
@@ -78,7 +80,8 @@ class Cfg:
         return {"N": self.N, "T": self.T, "dims": list(self.dims), "scale": list(self.scale),
                 "use_scale": self.use_scale, "reg_cust": self.reg_cust,
                 "per_axis_pos": self.per_axis_pos, "name": self.name, "enable": self.enable,
-                "rebuild": self.rebuild, "embed": self.embed, "max_stroke": self.max_stroke, "node_shift": self.node_shift}
+                "rebuild": self.rebuild, "embed": self.embed, "max_stroke": self.max_stroke, "node_shift": self.node_shift,
+                "seg_dtype": self.seg_dtype}
 
     @staticmethod
     def from_json(d):
@@ -106,7 +109,7 @@ class Driver:
                     shape = tuple(cfg.embed["shape"])
                 elif cfg.embed:
                     shape = (*shape[:-1], cfg.embed[0])
-                seg = np.zeros(shape, dtype=np.uint16)
+                seg = np.zeros(shape, dtype=np.dtype(cfg.seg_dtype))
             scale = [1, *cfg.scale] if cfg.use_scale else None
             self.tracks = SolutionTracks(g, segmentation=seg, scale=scale)
         else:
@@ -367,6 +370,12 @@ class _NodeView:
             max_lineage_id = ta.max_lineage_id
         self.track_annotator = TA
 
+        self._k = k
+
+    def get_track_neighbors(self, track_id, time):
+        p, s = self._tr.get_track_neighbors(track_id, time)
+        return (p + self._k if p is not None else None), (s + self._k if s is not None else None)
+
     def __getattr__(self, name):
         return getattr(self._tr, name)
 
@@ -400,7 +409,8 @@ def rat(x, bound=64):
 
 def project(tr, cfg: Cfg, queries=False, shift=0, nshift=0):
     if nshift:
-        return _unshift_nodes(project(_NodeView(tr, nshift), cfg, False, shift, 0))
+        # (the queries of a view: segmentation-free suites only - get_pixels is not translated)
+        return _unshift_nodes(project(_NodeView(tr, nshift), cfg, queries and tr.segmentation is None, shift, 0))
     N = cfg.N
     g = tr.graph
     tk, idk, lk = tr.features.time_key, tr.features.tracklet_key, tr.features.lineage_key
